@@ -253,7 +253,8 @@ package core
 // filters, select, render, path, fields, distinct and aggregate are rejected with an
 // error (and no processor) on anything that is not a vertex or an edge.
 //@ func StatementProcessor
-//@   property C01 C19
+//@   property C01 C19 C14
+//@   option prelude=typing
 //@   option load=gripql,gdbi,engine/pipeline,util/protoutil,engine/logic,jsonpath
 //@   requires nonnil: gs != nil && ps != nil
 //@   axiom wireWrapStmt: forall s:*gripql.GraphStatement :: s != nil && isAPtr(s.Statement) ==> ref(s.Statement) != 0
@@ -294,6 +295,36 @@ package core
 //@       dyn(st, "*gripql.GraphStatement_Path") || dyn(st, "*gripql.GraphStatement_Fields") ||
 //@       dyn(st, "*gripql.GraphStatement_Aggregate")) ==> result.1 != nil
 //@   ensures noproc: result.1 != nil && !dyn(st, "*gripql.GraphStatement_EngineCustom") ==> result.0 == nil && ps.LastType == lt0
+// The same table as one function (spec/typing.smt2), shared with the MongoDB compiler's
+// contract (C14): for every statement kind the rows cover, the type after the statement is
+// tnext(statement, type before), and a statement whose row says -1 is rejected.
+//@   axiom rowV: forall s:*gripql.GraphStatement, t :: s != nil && dyn(s.Statement, "*gripql.GraphStatement_V") ==> tnext(s.Statement, t) == ite(t == 0, 1, -1) && tcovered(s.Statement)
+//@   axiom rowE: forall s:*gripql.GraphStatement, t :: s != nil && dyn(s.Statement, "*gripql.GraphStatement_E") ==> tnext(s.Statement, t) == ite(t == 0, 2, -1) && tcovered(s.Statement)
+//@   axiom rowIn: forall s:*gripql.GraphStatement, t :: s != nil && dyn(s.Statement, "*gripql.GraphStatement_In") ==> tnext(s.Statement, t) == ite((t == 1 || t == 2), 1, -1) && tcovered(s.Statement)
+//@   axiom rowInNull: forall s:*gripql.GraphStatement, t :: s != nil && dyn(s.Statement, "*gripql.GraphStatement_InNull") ==> tnext(s.Statement, t) == ite((t == 1 || t == 2), 1, -1) && tcovered(s.Statement)
+//@   axiom rowOut: forall s:*gripql.GraphStatement, t :: s != nil && dyn(s.Statement, "*gripql.GraphStatement_Out") ==> tnext(s.Statement, t) == ite((t == 1 || t == 2), 1, -1) && tcovered(s.Statement)
+//@   axiom rowOutNull: forall s:*gripql.GraphStatement, t :: s != nil && dyn(s.Statement, "*gripql.GraphStatement_OutNull") ==> tnext(s.Statement, t) == ite((t == 1 || t == 2), 1, -1) && tcovered(s.Statement)
+//@   axiom rowBoth: forall s:*gripql.GraphStatement, t :: s != nil && dyn(s.Statement, "*gripql.GraphStatement_Both") ==> tnext(s.Statement, t) == ite((t == 1 || t == 2), 1, -1) && tcovered(s.Statement)
+//@   axiom rowInE: forall s:*gripql.GraphStatement, t :: s != nil && dyn(s.Statement, "*gripql.GraphStatement_InE") ==> tnext(s.Statement, t) == ite(t == 1, 2, -1) && tcovered(s.Statement)
+//@   axiom rowInENull: forall s:*gripql.GraphStatement, t :: s != nil && dyn(s.Statement, "*gripql.GraphStatement_InENull") ==> tnext(s.Statement, t) == ite(t == 1, 2, -1) && tcovered(s.Statement)
+//@   axiom rowOutE: forall s:*gripql.GraphStatement, t :: s != nil && dyn(s.Statement, "*gripql.GraphStatement_OutE") ==> tnext(s.Statement, t) == ite(t == 1, 2, -1) && tcovered(s.Statement)
+//@   axiom rowOutENull: forall s:*gripql.GraphStatement, t :: s != nil && dyn(s.Statement, "*gripql.GraphStatement_OutENull") ==> tnext(s.Statement, t) == ite(t == 1, 2, -1) && tcovered(s.Statement)
+//@   axiom rowBothE: forall s:*gripql.GraphStatement, t :: s != nil && dyn(s.Statement, "*gripql.GraphStatement_BothE") ==> tnext(s.Statement, t) == ite(t == 1, 2, -1) && tcovered(s.Statement)
+//@   axiom rowHas: forall s:*gripql.GraphStatement, t :: s != nil && dyn(s.Statement, "*gripql.GraphStatement_Has") ==> tnext(s.Statement, t) == ite((t == 1 || t == 2), t, -1) && tcovered(s.Statement)
+//@   axiom rowHasLabel: forall s:*gripql.GraphStatement, t :: s != nil && dyn(s.Statement, "*gripql.GraphStatement_HasLabel") ==> tnext(s.Statement, t) == ite((t == 1 || t == 2), t, -1) && tcovered(s.Statement)
+//@   axiom rowHasKey: forall s:*gripql.GraphStatement, t :: s != nil && dyn(s.Statement, "*gripql.GraphStatement_HasKey") ==> tnext(s.Statement, t) == ite((t == 1 || t == 2), t, -1) && tcovered(s.Statement)
+//@   axiom rowHasId: forall s:*gripql.GraphStatement, t :: s != nil && dyn(s.Statement, "*gripql.GraphStatement_HasId") ==> tnext(s.Statement, t) == ite((t == 1 || t == 2), t, -1) && tcovered(s.Statement)
+//@   axiom rowDistinct: forall s:*gripql.GraphStatement, t :: s != nil && dyn(s.Statement, "*gripql.GraphStatement_Distinct") ==> tnext(s.Statement, t) == ite((t == 1 || t == 2), t, -1) && tcovered(s.Statement)
+//@   axiom rowFields: forall s:*gripql.GraphStatement, t :: s != nil && dyn(s.Statement, "*gripql.GraphStatement_Fields") ==> tnext(s.Statement, t) == ite((t == 1 || t == 2), t, -1) && tcovered(s.Statement)
+//@   axiom rowLimit: forall s:*gripql.GraphStatement, t :: s != nil && dyn(s.Statement, "*gripql.GraphStatement_Limit") ==> tnext(s.Statement, t) == t && tcovered(s.Statement)
+//@   axiom rowSkip: forall s:*gripql.GraphStatement, t :: s != nil && dyn(s.Statement, "*gripql.GraphStatement_Skip") ==> tnext(s.Statement, t) == t && tcovered(s.Statement)
+//@   axiom rowRange: forall s:*gripql.GraphStatement, t :: s != nil && dyn(s.Statement, "*gripql.GraphStatement_Range") ==> tnext(s.Statement, t) == t && tcovered(s.Statement)
+//@   axiom rowCount: forall s:*gripql.GraphStatement, t :: s != nil && dyn(s.Statement, "*gripql.GraphStatement_Count") ==> tnext(s.Statement, t) == 3 && tcovered(s.Statement)
+//@   axiom rowRender: forall s:*gripql.GraphStatement, t :: s != nil && dyn(s.Statement, "*gripql.GraphStatement_Render") ==> tnext(s.Statement, t) == ite((t == 1 || t == 2), 6, -1) && tcovered(s.Statement)
+//@   axiom rowPath: forall s:*gripql.GraphStatement, t :: s != nil && dyn(s.Statement, "*gripql.GraphStatement_Path") ==> tnext(s.Statement, t) == ite((t == 1 || t == 2), 7, -1) && tcovered(s.Statement)
+//@   axiom rowAggregate: forall s:*gripql.GraphStatement, t :: s != nil && dyn(s.Statement, "*gripql.GraphStatement_Aggregate") ==> tnext(s.Statement, t) == ite((t == 1 || t == 2), 4, -1) && tcovered(s.Statement)
+//@   axiom rowsOnly: forall s:*gripql.GraphStatement :: s != nil && tcovered(s.Statement) ==> (dyn(s.Statement, "*gripql.GraphStatement_V") || dyn(s.Statement, "*gripql.GraphStatement_E") || dyn(s.Statement, "*gripql.GraphStatement_In") || dyn(s.Statement, "*gripql.GraphStatement_InNull") || dyn(s.Statement, "*gripql.GraphStatement_Out") || dyn(s.Statement, "*gripql.GraphStatement_OutNull") || dyn(s.Statement, "*gripql.GraphStatement_Both") || dyn(s.Statement, "*gripql.GraphStatement_InE") || dyn(s.Statement, "*gripql.GraphStatement_InENull") || dyn(s.Statement, "*gripql.GraphStatement_OutE") || dyn(s.Statement, "*gripql.GraphStatement_OutENull") || dyn(s.Statement, "*gripql.GraphStatement_BothE") || dyn(s.Statement, "*gripql.GraphStatement_Has") || dyn(s.Statement, "*gripql.GraphStatement_HasLabel") || dyn(s.Statement, "*gripql.GraphStatement_HasKey") || dyn(s.Statement, "*gripql.GraphStatement_HasId") || dyn(s.Statement, "*gripql.GraphStatement_Distinct") || dyn(s.Statement, "*gripql.GraphStatement_Fields") || dyn(s.Statement, "*gripql.GraphStatement_Limit") || dyn(s.Statement, "*gripql.GraphStatement_Skip") || dyn(s.Statement, "*gripql.GraphStatement_Range") || dyn(s.Statement, "*gripql.GraphStatement_Count") || dyn(s.Statement, "*gripql.GraphStatement_Render") || dyn(s.Statement, "*gripql.GraphStatement_Path") || dyn(s.Statement, "*gripql.GraphStatement_Aggregate"))
+//@   ensures typing: tcovered(st) ==> (result.1 == nil ==> ps.LastType == tnext(st, lt0)) && (tnext(st, lt0) == -1 ==> result.1 != nil)
 // aggregate (C19): two aggregations of one step never share a name (each runs on the
 // channel registered under its name), or the step is rejected
 //@   let aggL = ptr(gs.Statement, "*gripql.GraphStatement_Aggregate").Aggregate.Aggregations
